@@ -910,6 +910,72 @@ fn frozen_remote_open_backlog_tcp(ctx: &mut Ctx) {
     }
 }
 
+/// C05, protocol side: every failed dial is reported to every protocol, also to one whose event channel is full at that
+/// moment (the manager has to wait for it, not drop the report). Protocol X stops polling, `capacity + 5` dials to
+/// unreachable addresses fail, X resumes: X and Y must each have seen exactly that many `DialFailure` events.
+/// `commands_while_blocked`: the last dials are requested one by one while the manager is already waiting for X's
+/// channel — the application's event loop (a `select!` over commands and `next_event()`) then drops the pending
+/// `next_event()` future; otherwise they are requested in one batch beforehand and nothing interrupts the manager.
+pub fn dial_failures_reach_a_clogged_protocol(ctx: &mut Ctx, commands_while_blocked: bool) {
+    use crate::env::node::MonitorCmd;
+    let result = std::thread::spawn(move || -> Result<(usize, usize), Viol> {
+        let rt = crate::env::driver::runtime(5);
+        let _g = rt.enter();
+        let scn = sc("c07", 100_000, false, 0, vec![]);
+        let mut w = World::new();
+        let st = scn.setup(&mut w);
+        let _ = st.x.cmd.send(MonitorCmd::Pause);
+        w.run_to_quiescence(100_000);
+        let capacity = litep2p::verif::DEFAULT_CHANNEL_SIZE;
+        let total = capacity + 5;
+        let one_by_one = if commands_while_blocked { total } else { capacity.saturating_sub(5) };
+        for i in 0..total {
+            let p = crate::util::peer(800_000 + i as u64);
+            let a: multiaddr::Multiaddr = format!("/ip4/10.201.{}.{}/tcp/1", i / 250, i % 250 + 1).parse().unwrap();
+            let _ = w.nodes[st.l].cmd.send(NodeCmd::DialAddress(a.with(multiaddr::Protocol::P2p(p.into()))));
+            if i < one_by_one {
+                w.run_to_quiescence(100_000);
+            }
+        }
+        w.run_to_quiescence(1_000_000);
+        let accepted = w.nodes[st.l].log.lock().iter().filter(|e| matches!(e, NodeLog::DialResult(_, Ok(())))).count();
+        if accepted != total {
+            return Err(Viol::new("machinery/clogged-protocol-setup", format!("{accepted} of {total} dials were accepted")));
+        }
+        let _ = st.x.cmd.send(MonitorCmd::Resume);
+        w.run_to_quiescence(2_000_000);
+        let count = |h: &MonitorHandle| h.log.lock().iter().filter(|e| matches!(e, Seen::DialFailure { .. })).count();
+        let (cx, cy) = (count(&st.x), count(&st.y));
+        if cx != total || cy != total {
+            let sig = if commands_while_blocked {
+                "c05/dial-failure-report-lost/next-event-future-dropped-while-the-manager-waits-for-a-full-channel"
+            } else {
+                "c05/dial-failure-not-reported-to-a-protocol-whose-channel-was-full"
+            };
+            return Err(Viol::new(
+                sig,
+                format!("{total} accepted dials failed while protocol X was not polling (its event channel holds {capacity}); after X resumed it has seen {cx} DialFailure events, protocol Y {cy} (each must be {total}); dial commands issued while the manager was blocked: {commands_while_blocked}"),
+            ));
+        }
+        Ok((total, w.driver.steps as usize))
+    })
+    .join();
+    let label = if commands_while_blocked { "dial_failures_reach_a_clogged_protocol_commands_while_blocked" } else { "dial_failures_reach_a_clogged_protocol" };
+    match result {
+        Ok(Ok((n, steps))) => {
+            ctx.sub(label, serde_json::json!({"failed_dials": n, "driver_steps": steps, "held": true}));
+            ctx.cov_add("traces_validated_against_impl", 1);
+        }
+        Ok(Err(v)) if v.signature.starts_with("machinery/") => ctx.machinery_error(format!("{}: {}", v.signature, v.what)),
+        Ok(Err(v)) => ctx.violation(crate::report::Violation {
+            signature: v.signature,
+            what: v.what,
+            replay: serde_json::json!({"engine": "scripted", "scenario": "backpressure_order_check"}),
+        }),
+        Err(_) => ctx.machinery_error("clogged-protocol scenario panicked"),
+    }
+}
+
 /// C07 on real TCP nodes (E4): a local **force close** while protocol X's event channel is full and stays full for 8 s of
 /// virtual time. `TcpConnection`'s ForceClose arm must still tell every protocol and the manager, exactly once, after X
 /// drains (the SimNet variant above ends the connection by cutting the carrier and exercises the mirror; this one
